@@ -24,7 +24,7 @@ def run(ctx):
     atomic(ctx)
     raises(ctx)
     convert(ctx)
-    if ctx.thorough():
+    if True:
         from . import lexrules
         lexrules.time_rule(ctx, 'C12-TIME', 'xtuml.load:ModelLoader', extra_regex_fn='xtuml.load:guess_type_name')
     ctx.assume('implicit built-in errors that depend on model values (e.g. a ROP naming an attribute its class lacks) '
@@ -34,7 +34,7 @@ def run(ctx):
             'p_*/t_* actions, who-may-write scan for `.statements`, call-graph closure from input/build_metamodel '
             'and the ply actions with classification of every reachable raise against the exception class '
             'hierarchy, guard analysis (enclosing try / dominating lexical-class test) of every partial converter '
-            'fed with statement text' + ('; exact ambiguity analysis of the token regexes' if ctx.thorough() else ''))
+            'fed with statement text' + '; exact ambiguity analysis of the token regexes')
 
 
 def _self_stores(fn, attr=None):
